@@ -45,7 +45,10 @@ Section DirRefine.
     di_tree : root_inv (d_epoch st) (d_tree st);
     di_epochs : forall s, In s (d_states st) -> vr_epoch s <= d_epoch st;
     di_versions : forall l s, latest_state (d_states st) l (d_epoch st) = Some s -> 1 <= vr_version s;
-    di_leaves : forall y, In y (leaves (d_tree st)) -> used st (lf_label y) }.
+    di_leaves : forall y, In y (leaves (d_tree st)) -> used st (lf_label y);
+    di_distinct : forall s s', In s (d_states st) -> In s' (d_states st) ->
+                  vr_user s = vr_user s' -> vr_epoch s = vr_epoch s' -> s = s';
+    di_ver_le : forall s, In s (d_states st) -> vr_version s <= vr_epoch s }.
 
   (* ---- latest_state over appended states of the next epoch *)
   Lemma fold_lstep_bump u E : forall sts acc, (forall s, In s sts -> vr_epoch s <= E) ->
@@ -217,6 +220,8 @@ Section DirRefine.
     - intros s [].
     - intros l s H. discriminate.
     - intros y [].
+    - intros s s' [].
+    - intros s [].
   Qed.
 
   (* ---- one publish *)
@@ -227,7 +232,7 @@ Section DirRefine.
         derive_all st upds = Some (elems, news) /\ d_epoch st' = d_epoch st + 1 /\ d_states st' = d_states st ++ news /\
         Permutation (leaves (d_tree st')) (leaves (d_tree st) ++ map (lf_of (d_epoch st + 1)) elems)).
   Proof.
-    intros [Itree Iep Iver Ilv] H. unfold Directory.publish in H.
+    intros [Itree Iep Iver Ilv Idist Ivle] H. unfold Directory.publish in H.
     destruct (has_dup (map fst upds)) eqn:Hd; [discriminate|].
     destruct (derive_all st upds) as [[elems news]|] eqn:Ed; [|discriminate].
     destruct elems as [|x0 xs] eqn:EE.
@@ -282,6 +287,25 @@ Section DirRefine.
              destruct He as [Hf|[Hs1 Hs]].
              ++ exists l, true, (ver st l + 1). split; [exact Hf | split; lia].
              ++ exists l, false, (ver st l). split; [exact Hs | split; lia].
+        * intros s s' Hs Hs' Hu He. apply in_app_or in Hs, Hs'. destruct Hs as [Hs|Hs]; destruct Hs' as [Hs'|Hs'].
+          -- apply Idist; assumption.
+          -- exfalso. pose proof (Iep s Hs). rewrite (Hnews_ep s' Hs') in He. lia.
+          -- exfalso. pose proof (Iep s' Hs'). rewrite (Hnews_ep s Hs) in He. lia.
+          -- apply D4; assumption.
+        * intros s Hs. apply in_app_or in Hs. destruct Hs as [Hs|Hs]; [apply Ivle; exact Hs|].
+          destruct (D3 s Hs) as (l & v & nl & _ & ->). cbn [vr_version vr_epoch]. unfold ver.
+          destruct (latest_state (d_states st) l (d_epoch st)) as [s0|] eqn:El; [|lia].
+          assert (Hin : In s0 (d_states st) /\ vr_epoch s0 <= d_epoch st).
+          { clear - El. rewrite latest_state_fold in El.
+            assert (G : forall sts acc, (forall a, acc = Some a -> In a (d_states st) /\ vr_epoch a <= d_epoch st) -> (forall x, In x sts -> In x (d_states st)) ->
+                        forall r, fold_left (lstep l (d_epoch st)) sts acc = Some r -> In r (d_states st) /\ vr_epoch r <= d_epoch st).
+            { induction sts as [|x sts IHs]; intros acc Hacc Hsub r Hr; cbn [fold_left] in Hr; [apply Hacc; exact Hr|].
+              apply (IHs (lstep l (d_epoch st) acc x)); [|intros y Hy; apply Hsub; right; exact Hy | exact Hr].
+              intros a Ha. unfold lstep in Ha. destruct (bytes_eqb (vr_user x) l && (vr_epoch x <=? d_epoch st)) eqn:C; [|apply Hacc; exact Ha].
+              apply andb_true_iff in C. destruct C as [_ C]. apply N.leb_le in C.
+              destruct acc as [c|]; [destruct (vr_epoch c <=? vr_epoch x); [injection Ha as <-; split; [apply Hsub; left; reflexivity | exact C] | apply Hacc; exact Ha] | injection Ha as <-; split; [apply Hsub; left; reflexivity | exact C]]. }
+            apply (G (d_states st) None); [discriminate | auto | exact El]. }
+          destruct Hin as [Hin Hep]. pose proof (Ivle s0 Hin). lia.
       + cbn [epoch_hash snd st' d_tree]. apply canon_root_hash. apply Ir.
   Qed.
 
@@ -320,7 +344,79 @@ Section DirRefine.
   Proof.
     cbv zeta. assert (G : forall reqs st, DirInv st -> DirInv (run_publishes st reqs)).
     { induction reqs0 as [|r rest IH]; intros st I; [exact I|]. cbn [run_publishes]. apply IH. apply publish_keeps_inv. exact I. }
-    pose proof (G reqs dir_new dir_new_inv) as I. split; [exact I|]. destruct I as [[Hc _] _ _ _].
+    pose proof (G reqs dir_new dir_new_inv) as I. split; [exact I|]. destruct I as [[Hc _] _ _ _ _ _].
     split; [symmetry; apply canon_root_spec; exact Hc|]. unfold epoch_hash. f_equal. apply canon_root_hash. exact Hc.
   Qed.
 End DirRefine.
+
+Lemma invariant_reachable cfg ck (vl : bytes -> bool -> N -> option nlabel) :
+  canonical (c_empty_label cfg) = false ->
+  (forall l f v nl, vl l f v = Some nl -> WF nl /\ canonical nl = true /\ llen nl = 256) ->
+  (forall l f v l' f' v' nl, vl l f v = Some nl -> vl l' f' v' = Some nl -> l = l' /\ f = f' /\ v = v') ->
+  forall reqs, DirInv vl (run_publishes cfg ck vl dir_new reqs).
+Proof. intros H1 H2 H3 reqs. exact (proj1 (directory_always_spec cfg ck vl H1 H2 H3 reqs)). Qed.
+
+(* ------------------------------------------------------------------ C02: the freshness part of an honest lookup proof verifies *)
+From Akd Require Import NonMemComplete BitsLabel TreeComplete Marker.
+
+Section LookupFresh.
+  Variable cfg : config.
+  Variable ck : bytes.
+  Variable vrf_label : bytes -> bool -> N -> option nlabel.
+  Variable vrf_proof : bytes -> bool -> N -> option bytes.
+  Hypothesis Ce : canonical (c_empty_label cfg) = false.
+  Hypothesis vrf_good : forall l f v nl, vrf_label l f v = Some nl -> WF nl /\ canonical nl = true /\ llen nl = 256.
+  Hypothesis vrf_inj : forall l f v l' f' v' nl, vrf_label l f v = Some nl -> vrf_label l' f' v' = Some nl -> l = l' /\ f = f' /\ v = v'.
+
+  Lemma leaves_WF c : canon c -> forall y, In y (leaves c) -> WF (lf_label y).
+  Proof.
+    intros Hc y Hy. pose proof (wf_sub_wfg c (proj1 Hc)) as Hw. clear Hc. revert y Hy.
+    induction c as [l v e|l le mde a b IHa IHb] using tree_ind'; intros y Hy.
+    - destruct Hy as [<-|[]]. cbn [lf_label]. apply (wfg_label _ Hw).
+    - cbn [leaves] in Hy. apply in_app_or in Hy. destruct Hy as [Hy|Hy].
+      + destruct a as [a'|]; [|destruct Hy]. apply (IHa a' eq_refl); [|exact Hy]. apply (wfg_child l le mde (Some a') b false a' Hw eq_refl).
+      + destruct b as [b'|]; [|destruct Hy]. apply (IHb b' eq_refl); [|exact Hy]. apply (wfg_child l le mde a (Some b') true b' Hw eq_refl).
+  Qed.
+
+  Lemma root_leaves_256 latest t : root_inv latest t -> forall y, In y (leaves t) -> length (bits_of (lf_label y)) = 256%nat.
+  Proof.
+    intros [Hc Hl] y Hy. destruct (Hl y Hy) as (H256 & _).
+    assert (Wy : WF (lf_label y)).
+    { destruct t as [|l le mde a b]; [destruct Hc|]. destruct Hc as (_ & Ca & Cb & _). cbn [leaves] in Hy. apply in_app_or in Hy. destruct Hy as [Hy|Hy].
+      - destruct a as [a'|]; [|destruct Hy]. apply (leaves_WF a' (proj2 Ca) y Hy).
+      - destruct b as [b'|]; [|destruct Hy]. apply (leaves_WF b' (proj2 Cb) y Hy). }
+    rewrite length_bits_of by exact Wy. rewrite H256. reflexivity.
+  Qed.
+
+  (* C02: every part of the proof an honest directory returns for a lookup that concerns the tree
+     verifies against the returned root hash: existence, marker (membership) and freshness
+     (non-membership of the stale label of the current version) *)
+  Theorem lookup_tree_parts_verify st l p eh :
+    DirInv vrf_label st -> lookup cfg ck vrf_label vrf_proof st l = DOk (p, eh) ->
+    eh = epoch_hash cfg st /\
+    verify_membership cfg (snd eh) (lp_existence p) = true /\
+    verify_membership cfg (snd eh) (lp_marker p) = true /\
+    verify_nonmembership cfg (snd eh) (lp_freshness p) = true.
+  Proof.
+    intros I. pose proof I as [Itree Iep Iver Ilv _ _]. unfold Directory.lookup.
+    destruct (latest_state (d_states st) l (d_epoch st)) as [s|] eqn:El; [|discriminate].
+    destruct (vrf_label l true (vr_version s)) as [el|]; [|discriminate].
+    destruct (vrf_label l true (lookup_marker (vr_version s))) as [ml|]; [|discriminate].
+    destruct (vrf_label l false (vr_version s)) as [nl|] eqn:En; [|discriminate].
+    destruct (vrf_proof l true (vr_version s)) as [ep|]; [|discriminate].
+    destruct (vrf_proof l true (lookup_marker (vr_version s))) as [mp|]; [|discriminate].
+    destruct (vrf_proof l false (vr_version s)) as [np|]; [|discriminate].
+    intros [= <- <-]. cbn [lp_existence lp_marker lp_freshness snd epoch_hash].
+    assert (Hroot : tlabel (d_tree st) = nl_root /\ is_leaf (d_tree st) = false).
+    { destruct Itree as [Hc _]. destruct (d_tree st); [destruct Hc|]. destruct Hc as (-> & _). split; reflexivity. }
+    destruct Hroot as [Hr Hl].
+    split; [reflexivity|]. split; [apply gen_membership_verifies; assumption|]. split; [apply gen_membership_verifies; assumption|].
+    destruct (vrf_good _ _ _ _ En) as (Wn & Cn & Ln).
+    apply (nonmembership_complete cfg Ce nl Wn Cn).
+    - rewrite length_bits_of by exact Wn. rewrite Ln. reflexivity.
+    - apply Itree.
+    - apply (root_leaves_256 (d_epoch st)). exact Itree.
+    - intros y Hy E. destruct (Ilv y Hy) as (l' & f' & v' & Hv' & H1 & Hb'). rewrite E in Hv'.
+      destruct (vrf_inj _ _ _ _ _ _ _ En Hv') as (<- & <- & <-). cbn in Hb'. unfold ver in Hb'. rewrite El in Hb'. lia.
+  Qed.
+End LookupFresh.
